@@ -77,6 +77,22 @@ pub fn build_chain_model(raw: &[(u16, u8, u16)], extra: (u16, i8, i8)) -> (Model
         witness.push((holds && next(4) != 0) as i32);
         cons.push(Posted { cons: c, mode: Mode::ImpliedBy(Lit { var: sw, neg: false }), tag: false });
     }
+    // clause pairs: (e \/ !y \/ !z) and (e \/ !y \/ z) where e is [x_hi <= 0] or [x_lo >= 1]: together they say
+    // e \/ !y, but the solver only finds out through a conflict once e is false and y is decided true - a
+    // conflict between a current-level predicate and the far end of a chain set off at a lower level
+    let pairs = 1 + next(5);
+    for _ in 0..pairs {
+        let e = if next(2) == 0 { Pred { var: n - 1 - next(n / 25 + 1), kind: PKind::Le, val: 0 } } else { Pred { var: next(n / 25 + 1), kind: PKind::Ge, val: 1 } };
+        let (y, z) = (vars.len(), vars.len() + 1);
+        vars.push(VarDecl::Bool);
+        vars.push(VarDecl::Bool);
+        let e_planted = e.holds(witness[e.var] as i64);
+        witness.push((e_planted && next(4) != 0) as i32);
+        witness.push(next(2) as i32);
+        for z_kind in [PKind::Le, PKind::Ge] {
+            cons.push(Posted::plain(Cons::PredClause { preds: vec![e, Pred { var: y, kind: PKind::Le, val: 0 }, Pred { var: z, kind: z_kind, val: (z_kind == PKind::Ge) as i32 }] }));
+        }
+    }
     let k = 10 + next(50);
     for _ in 0..k {
         match next(3) {
@@ -386,6 +402,19 @@ impl Property for SolveProp {
                 }
             }
             out.sub_evals = checked;
+            // the solver is back at the root: whatever it has fixed there (learned unit nogoods included) is implied
+            // by the model, so the planted solution lies within the root bounds
+            if !matches!(result, SatRes::Unsat) {
+                for (v, d) in b.doms.iter().enumerate() {
+                    let (lb, ub) = (b.solver.lower_bound(d), b.solver.upper_bound(d));
+                    if w[v] < lb || w[v] > ub {
+                        return Err(Failure::new(
+                            "wrong:root-bounds-exclude-planted-solution",
+                            format!("after the solve variable {v} of the long-chain model has root bounds [{lb}, {ub}] but the planted solution has the value {}", w[v]),
+                        ));
+                    }
+                }
+            }
             match result {
                 SatRes::Sat(a) => {
                     if let Some(why) = sem::first_violation(m, &a) {
